@@ -1537,6 +1537,7 @@ func (a *Adversary) goodNV(h uint64) bool {
 	var lockHash []byte
 	var lockBlk *spi.Blk
 	lockV, have := uint64(0), false
+	lockFrom := ""
 	for _, f := range a.w.Seen {
 		m := f.Msg
 		if m == nil || m.Env != ref.EnvVC || m.H != h || m.V != v || !f.Honest || f.To != leader || m.Vote.Proof == nil || m.Vote.Proof.PPRef == nil || m.Block == nil {
@@ -1545,9 +1546,15 @@ func (a *Adversary) goodNV(h uint64) bool {
 		if !ref.ProofValid(a.w.Keys, c, inst, h, v, m.Vote.Proof) {
 			continue
 		}
-		if !have || m.Vote.Proof.PPRef.V > lockV {
+		if !have || m.Vote.Proof.PPRef.V > lockV || (m.Vote.Proof.PPRef.V == lockV && a.r.Intn(2) == 0) {
+			// (two valid proofs of one view for different blocks cannot exist while the protocol holds; if they do, the leader is
+			// free to prefer either: it puts the vote it prefers first)
 			lockV, lockHash, lockBlk, have = m.Vote.Proof.PPRef.V, m.Vote.Proof.PPRef.Hash, m.Block, true
+			lockFrom = m.Sender.Id
 		}
+	}
+	if have {
+		sort.SliceStable(votes, func(i, j int) bool { return votes[i].Sender.Id == lockFrom && votes[j].Sender.Id != lockFrom })
 	}
 	hash, blk := lockHash, lockBlk
 	if !have {
